@@ -126,7 +126,7 @@ def run(prop, tier, seed, jobs):
     if overlaps == 0:
         inconclusive.append("no create/lookup overlap between threads was observed")
     cov = {"evaluations": evals, "distinct_nontrivial": distinct, "samples": samples,
-           "rule": "N in {2,4,8,16} threads, each running a private seeded script of create (internal or caller buffer) / option setters / chunk size / offset / assemble (plain, fitting, counting; valid and failing programs of 1-12 pool lines) / destroy cycles with sched_yield at API boundaries chosen by the script, released together by a barrier; repeated for several rounds with fresh scripts, once under ThreadSanitizer and once under ASan+UBSan. Non-trivial = the run observed at least one overlap of one thread's asm_create_instance (which rewrites the global index tables) with another thread's assemble call (which reads them), measured with atomic phase counters; every compared result of such a run counts.",
+           "rule": "N in {2,4,8,16} threads, each running a private seeded script of create (internal or caller buffer) / option setters / chunk size / offset / assemble (plain, fitting, counting; valid and failing programs of 1-12 pool lines) / destroy cycles with sched_yield at API boundaries chosen by the script, released together by a barrier; repeated for several rounds with fresh scripts, once under ThreadSanitizer and once under ASan+UBSan. Non-trivial = the run observed at least one overlap of one thread's asm_create_instance (which rewrites the global index tables) with another thread's assemble call (which reads them), measured with atomic phase counters; every compared result of such a run counts. Every fourth operation slot lets all threads assemble one shared source file (behind 200 KB of comment) on their own instances.",
            "create_lookup_overlaps": overlaps, "violations_confirmed": violations, "inconclusive": inconclusive}
     ev = {"property_id": "C18", "tier": tier, "seed": seed, "level": "exploration", "coverage": cov,
           "assumptions": ["ThreadSanitizer's happens-before analysis (does not need the racy accesses to collide)", "the harness does not control the schedule inside the library"], "wall_s": round(time.time() - t0, 1), "violations": len(violations)}
